@@ -553,3 +553,69 @@ package diam
 //@   atcall Flush: [C07] lock_held: locked(&w.mu)
 //@   ensures [C07] lock_released: !locked(&w.mu)
 //@ end
+//@
+//@ # ======================= AVP search (C20) =================================
+//@ func findFromAVP(avps, code, findMultiple) (r, err)
+//@   property C20 C03
+//@   absidx
+//@   requires wfs(avps)
+//@   hint wfs.def(avps)
+//@   modifies
+//@   ensures [C20] found_iff_present: err == nil <==> hasmatch(avps, code)
+//@   ensures [C20] first_in_document_order: !findMultiple && err == nil ==> len(r) == 1 && r[0] == firstmatch(avps, code)
+//@   ensures [C20] all_of_them: findMultiple && err == nil ==> len(r) == nmatch(avps, code)
+//@   ensures [C20] only_that_code: err == nil ==> forall j int :: 0 <= j && j < len(r) ==> r[j] != nil && r[j].Code == code
+//@   ensures [C20] absent: err != nil ==> len(r) == 0
+//@   posthint nmatch.nonneg(avps, code)
+//@   loop 0
+//@     modifies fresh
+//@     invariant 0 - 1 <= rangeindex && rangeindex < len(avps)
+//@     invariant result_is_private: avpResult == nil || fresh(avpResult)
+//@     invariant [C20] single: !findMultiple ==> len(avpResult) == 0 && !hasmatch(avps[0:rangeindex+1], code)
+//@     invariant [C20] multi: findMultiple ==> len(avpResult) == nmatch(avps[0:rangeindex+1], code)
+//@     invariant [C20] only_that_code: forall j int :: 0 <= j && j < len(avpResult) ==> avpResult[j] != nil && avpResult[j].Code == code
+//@     hint hasmatch.step(avps, code, rangeindex + 2)
+//@     hint nmatch.step(avps, code, rangeindex + 2)
+//@     hint firstmatch.step(avps, code, rangeindex + 2)
+//@     hint firstmatch.prefix(avps, code, rangeindex + 2)
+//@     hint nmatch.nonneg(avps[0:rangeindex+1], code)
+//@     hint nmatch.nonneg(kids(avps[rangeindex+1]), code)
+//@     hint wfs.def(kids(avps[rangeindex+1]))
+//@   end
+//@ end
+//@
+//@ func (*Message).FindAVP(m, code, vendorID) (a, err)
+//@   property C20
+//@   requires m != nil && m.Header != nil && wfs(m.AVP) && (m.dictionary != nil ==> pwf(m.dictionary))
+//@   modifies
+//@   ensures [C20] by_number: typeis(code, uint32) && hasmatch(m.AVP, code.(uint32)) ==> err == nil && a == firstmatch(m.AVP, code.(uint32))
+//@   ensures [C20] by_int: typeis(code, int) && hasmatch(m.AVP, uint32(code.(int))) ==> err == nil && a == firstmatch(m.AVP, uint32(code.(int)))
+//@   ensures [C20] never_another: err == nil ==> a != nil && (typeis(code, uint32) ==> a.Code == code.(uint32)) && (typeis(code, int) ==> a.Code == uint32(code.(int)))
+//@   ensures [C20] absent: typeis(code, uint32) && !hasmatch(m.AVP, code.(uint32)) ==> err != nil && a == nil
+//@ end
+//@
+//@ func (*Message).FindAVPs(m, code, vendorID) (r, err)
+//@   property C20
+//@   requires m != nil && m.Header != nil && wfs(m.AVP) && (m.dictionary != nil ==> pwf(m.dictionary))
+//@   modifies
+//@   ensures [C20] by_number: typeis(code, uint32) && hasmatch(m.AVP, code.(uint32)) ==> err == nil && len(r) == nmatch(m.AVP, code.(uint32))
+//@   ensures [C20] never_another: err == nil && typeis(code, uint32) ==> forall j int :: 0 <= j && j < len(r) ==> r[j] != nil && r[j].Code == code.(uint32)
+//@   ensures [C20] absent: typeis(code, uint32) && !hasmatch(m.AVP, code.(uint32)) ==> err != nil && len(r) == 0
+//@ end
+//@
+//@ func avpsWithPath(avps, path) (r)
+//@   property C20 C03
+//@   absidx
+//@   requires wfs(avps)
+//@   hint wfs.def(avps)
+//@   modifies
+//@   ensures [C20] whole_forest_for_empty_path: len(path) == 0 ==> sameslice(r, avps)
+//@   ensures [C20] only_the_last_code: len(path) > 0 ==> forall j int :: 0 <= j && j < len(r) ==> r[j] != nil && r[j].Code == path[len(path)-1]
+//@   loop 0
+//@     modifies fresh
+//@     invariant 0 - 1 <= rangeindex && rangeindex < len(avps)
+//@     invariant result_is_private: avsOnPath == nil || fresh(avsOnPath)
+//@     invariant [C20] only_the_last_code: forall j int :: 0 <= j && j < len(avsOnPath) ==> avsOnPath[j] != nil && avsOnPath[j].Code == path[len(path)-1]
+//@     hint wfs.def(kids(avps[rangeindex+1]))
+//@   end
+//@ end
